@@ -670,6 +670,7 @@ def run(run: core.Run, tier: str):
     K.backend.clear_session()
     with _quiet():
       model, n_in = bfn()
+    mname = "m%d_%s" % (mi, bname)
     run.count("model_" + bname)
     srcq = [gen.ch(SRCQ) for _ in range(n_in)]
     for_reference = gen.p(0.12)
@@ -730,7 +731,7 @@ def run(run: core.Run, tier: str):
                 "w": [int(d) for d in ws[0].shape] if ws else [],
                 "pool": _pair(layer.pool_size) if hasattr(layer, "pool_size") else None}
         count_lines.append(line)
-        count_meta.append((model.name, layer.name, cls, reported, orc, line))
+        count_meta.append((mname, layer.name, cls, reported, orc, line))
       if orc is not None and orc[0] != "merge":
         kind, brute, d = orc
         sl = spec_line(kind, layer, in_shapes[0])
@@ -779,7 +780,7 @@ def run(run: core.Run, tier: str):
         bits += b
         gate += g
     except Exception as e:  # pylint: disable=broad-except
-      raise core.InfraError("cannot read the layer map of %s: %r" % (model.name, e))
+      raise core.InfraError("cannot read the layer map of %s: %r" % (mname, e))
     has_avgpool = any(r["cls"] in ("AveragePooling2D", "AvgPool2D", "GlobalAvgPool2D", "GlobalAveragePooling2D")
                       for _, r in recs)
     placements = []
@@ -797,7 +798,7 @@ def run(run: core.Run, tier: str):
               "min_sram_size": core.rj(ms), "rd_wr_on_io": rdwr, "layers": [r for _, r in recs],
               "costs": cost_tables(qsettings.cfg, qenergy.OP["sram"]["mul_factor"], sizes, bits, gate, ms)}
       energy_lines.append(line)
-      energy_meta.append((model.name, bname, [n for n, _ in recs], [r["cls"] for _, r in recs], ed, err,
+      energy_meta.append((mname, bname, [n for n, _ in recs], [r["cls"] for _, r in recs], ed, err,
                           has_avgpool, (wm, am, ms, rdwr), custom_cost))
       run.count("placement_w=%s_a=%s_io=%s_minsram=%s" % (wm, am, int(rdwr), "0" if ms == 0 else ">0"))
       if ed is None:
@@ -815,11 +816,47 @@ def run(run: core.Run, tier: str):
           p_impl = qt.extract_energy_profile(cs, ed)
         rows = [[ed[n]["class_name"], [core.rj(ed[n]["energy"][k]) for k in KEYS]] for n in ed if n != "total_cost"]
         extract_lines.append({"op": "extract", "cfg": cs, "rows": rows})
-        extract_meta.append((model.name, sname, cs, ed, int(s_impl),
+        extract_meta.append((mname, sname, cs, ed, int(s_impl),
                              [p_impl[n]["total"] for n in ed if n != "total_cost"]))
   if orig_polys is not None:
     for k, v in orig_polys.items():
       setattr(qsettings.cfg, k, v)
+
+  # =============================================================== component clauses (real functions only)
+  # C19_entry_memory_read / C19_entry_memory_write / C19_entry_parameters_fixed judged directly on
+  # qenergy.memory_read_energy / memory_write_energy: equalities between calls of the real code.
+  n_comp = 300 if tier == "quick" else 3000
+  for ci in range(n_comp):
+    shape = (None,) + tuple(gen.ri(1, 12) for _ in range(gen.ri(1, 3)))
+    bits = gen.ch([1, 2, 3, 4, 8, 16, 32])
+    mode = gen.ch(["dram", "sram", "fixed"])
+    ms = gen.ch([0, 64, 4096, 2 ** 20])
+    io = gen.p(0.5)
+    rdwr = gen.p(0.5)
+    with np.errstate(all="ignore"):
+      r = float(qenergy.memory_read_energy(io, shape, mode, ms, rdwr, bits))
+      w = float(qenergy.memory_write_energy(io, shape, mode, ms, rdwr, bits))
+      eff = ("dram" if rdwr else "sram") if io else mode
+      r_eff = float(qenergy.memory_read_energy(False, shape, eff, ms, rdwr, bits))
+      r_flat = float(qenergy.memory_read_energy(False, (_prod(shape[1:]),), eff, ms, rdwr, bits, is_tensor=False))
+    run.case(("component", shape, bits, mode, ms, io, rdwr))
+    run.count("component_%s%s" % (eff, "_io" if io else ""))
+    key = {"stream": "component", "effective_mode": eff, "io_layer": io, "rd_wr_on_io": rdwr}
+    det = {"shape": shape, "bits": bits, "mode": mode, "min_sram_size": ms, "is_io_layer": io,
+           "rd_wr_on_io": rdwr, "read": r, "write": w, "read_effective_mode": r_eff}
+    if not (r >= 0 and w >= 0):
+      run.violate("energy_nonneg", key, det, mirrored=False)
+    if w != r:
+      run.violate("write_energy_equals_read_energy", key, det, mirrored=False)
+    if r != r_eff or r != r_flat:
+      run.violate("io_layers_read_dram_iff_rd_wr_on_io", key, det, mirrored=False)
+    if eff == "fixed" and r != 0:
+      run.violate("fixed_placement_is_free", key, det, mirrored=False)
+    if eff == "dram" and not rdwr:
+      with np.errstate(all="ignore"):
+        d = float(max(qsettings.cfg.dram_rd(_prod(shape[1:]) * bits), 0))
+      if r != d:
+        run.violate("dram_without_io_is_dram_polynomial", key, dict(det, dram_poly=d), mirrored=False)
 
   # =============================================================== compare: counts
   outs = core.run_driver("C19", count_lines)
